@@ -15,10 +15,13 @@ import GitAiModel.Driver.Redact
 import GitAiModel.Driver.Routing
 import GitAiModel.Driver.Profile
 import GitAiModel.Driver.Sys
+import GitAiModel.Driver.SysMulti
 import GitAiModel.Driver.Rewrite
 import GitAiModel.Driver.Conc
 import GitAiModel.Driver.Wrapper
 import GitAiModel.Driver.HookMode
+import GitAiModel.Driver.SquashNote
+import GitAiModel.Driver.LineStep
 namespace GitAi.Driver
 open Lean
 
@@ -28,6 +31,7 @@ def handlers : List (String → Json → Option (Except String Json)) := [
   DiffSplitD.handle,
   StatsD.handle,
   TrackerD.handle,
+  LineStepD.handle,
   CliD.handle,
   SyncD.handle,
   BlameOverlayD.handle,
@@ -36,10 +40,12 @@ def handlers : List (String → Json → Option (Except String Json)) := [
   RoutingD.handle,
   ProfileD.handle,
   SysD.handle,
+  SysMultiD.handle,
   RewriteD.handle,
   ConcD.handle,
   WrapperD.handle,
-  HookModeD.handle
+  HookModeD.handle,
+  SquashNoteD.handle
 ]
 
 end GitAi.Driver
